@@ -35,6 +35,7 @@ type HarnessInfo struct {
 	File     string
 	Expect   string
 	NoPanicCheck bool
+	Also     []string
 }
 
 type Loaded struct {
@@ -189,6 +190,8 @@ func Load(groups []string) (*Loaded, error) {
 					h.Loop, _ = strconv.Atoi(strings.TrimSpace(m[2]))
 				case "bounds":
 					h.Bounds = strings.TrimSpace(m[2])
+				case "also":
+					h.Also = strings.Fields(m[2])
 				case "nopaniccheck":
 					h.NoPanicCheck = true
 				}
